@@ -5,6 +5,7 @@ HERE = os.path.dirname(os.path.dirname(os.path.abspath(__file__)))
 TECH = "bounded symbolic execution of the real Go code (go/ssa -> SMT bit-vectors, z3), path forking, native replay of counterexamples"
 BASE_NOTE = ("Trusted base: go/ssa construction, the engine's instruction semantics and stubs (validated by native cross-checks of sampled paths on every run), z3. "
              "Claim is bounded: nothing outside the bounds listed in the evidence file is decided. Stubs: fmt/log (opaque), crc32 (UF on symbolic bytes), zlib (real on concrete, stored-block codec on symbolic), time/rand (logical).")
+FSNOTE = BASE_NOTE + " Filesystem, processes, schedules and crashes are an in-engine model (DESIGN.md section 3): POSIX directory semantics, O_EXCL as passed by the code, atomic rename, no I/O faults, no power loss; schedules are context-bounded; counterexamples are replayed against the real filesystem through build-time interposition, and sampled paths are cross-checked step by step against it on every run."
 CLAIMED = {
  "C01": dict(text="Every feasible path of the real codec/block/table writer and reader inside the harness bounds is executed symbolically; the round-trip assertions are discharged by z3 for all values of the symbolic payload bytes, update indices, limits and configurations (bounds per harness in evidence). Bounded model checking: exhaustive inside the bounds, silent outside.", ref="5/C01"),
  "C02": dict(text="The seek key (every byte and every length within the bound, for reflogs also every 64-bit update index) is symbolic; the real writer builds the table and its indexes, the real reader seeks, and the suffix-of-scan oracle is asserted on every path. Exhaustive over the key space for the listed table shapes (0..3 index levels, multi-block top level, sections following an index), silent outside.", ref="5/C02"),
@@ -15,6 +16,13 @@ CLAIMED = {
  "C13": dict(text="writeCompact with a symbolic expiry configuration (three arbitrary 64-bit limits) over stacks with symbolic entry times: the surviving entries are asserted equal to the filter model field by field and the refs unchanged, on every path.", ref="5/C13"),
  "C14": dict(text="An independent decoder written from the format description is executed symbolically on the bytes the real writer emits (symbolic small tables and concrete multi-level shapes); every structural requirement of the format is an assertion, and the decoded records must equal the input. Symmetric writer/reader changes that the repo's own round-trip cannot see are caught here.", ref="5/C14"),
  "C17": dict(text="log2 for all 64-bit values; the segment chooser on all size vectors up to length 5/6 with symbolic mantissas per size class; the depth and rewrite bounds for N identical-size transactions under the additive size model with the size symbolic. Real-payload workloads in the thousands are outside reach (stated).", ref="5/C17"),
+ "C04": dict(text="The real stack code of 2-3 handles runs on the modelled filesystem; the symbolic executor case-splits every schedule within the context bound (preemption at every visible filesystem step), and the final view of a fresh handle is compared with the model of the committed transactions (commit order observed at the renames onto tables.list). Exhaustive inside the bound (handles, operations, preemptions), silent outside.", ref="5/C04", note=FSNOTE),
+ "C05": dict(text="A list-integrity monitor (independent of reftable's code) runs after every filesystem step of every schedule of the C04 scenarios and of two disjoint compactions racing: every table named by tables.list exists, is complete and ordered; the directory opens at the end.", ref="5/C05", note=FSNOTE),
+ "C06": dict(text="One process is abandoned immediately before every filesystem step (visible or private) of every operation kind on stacks of 1..3 tables; a fresh handle must open and show exactly the previous or the next state. Exhaustive over crash points within the listed operations.", ref="5/C06", note=FSNOTE),
+ "C08": dict(text="A lock-ownership monitor runs in contending scenarios of 2 and 3 handles over every schedule within the context bound: a *.lock path is created only when absent and removed/renamed only by its creator; O_EXCL is honoured as passed by the code.", ref="5/C08", note=FSNOTE),
+ "C09": dict(text="Every sequential history (within the bound) in which a handle becomes stale through another handle's additions/compactions/expiry, followed by every kind of write attempt through the stale handle: error class, unchanged directory, refreshed handle, fresh update index and successful retry are asserted.", ref="5/C09", note=FSNOTE),
+ "C10": dict(text="A reader handle reloads and scans while writers add and compact, for every schedule within the context bound: every scan must succeed and show one committed snapshot (all of a transaction or none of it).", ref="5/C10", note=FSNOTE),
+ "C16": dict(text="Residue check at quiescence over the concurrent scenarios of C04 and over sequential failure paths (failing write function, rejected limits, stale Add, empty Add, Clean/Close on empty and non-empty stacks and after another process was abandoned mid-Add): the directory holds exactly tables.list and the tables it names, and listed tables are never removed.", ref="5/C16", note=FSNOTE),
  "C18": dict(text="Every decoder entry point is run on an arbitrary (fully symbolic) buffer of bounded length; index/slice/nil/divide/allocation panics and step-budget overruns are implicit assertions decided by z3 on every path. Hostile deflate streams and longer files are outside the bound.", ref="5/C18"),
 }
 NOT_YET = "check not built yet in this session (work in progress); planned per DESIGN.md section 5"
